@@ -3,6 +3,7 @@
 from __future__ import annotations
 
 import ast
+import itertools
 import re
 
 from ..astutil import call_name, const_str, guard_texts, star_kwargs
@@ -309,16 +310,17 @@ def run(ctx):
     r5 = Rule("C01", "C01.R5", "one serialisation channel from the node tree to the returned text", floor=4,
               necessary="text assembled by another route bypasses the balanced, escaping writer")
     pf = ctx.func("pyxform.survey:Survey.print_xform_to_file", "C01.R5")
-    rets = [x for x in walk_own(pf.node) if isinstance(x, ast.Return)]
-    r5.check(len(rets) == 1 and isinstance(rets[0].value, ast.Name), "print_xform_to_file:return", "returns a single variable", pf.loc())
-    if rets and isinstance(rets[0].value, ast.Name):
-        var = rets[0].value.id
-        assigns = [x for x in walk_own(pf.node) if isinstance(x, ast.Assign) and any(isinstance(t, ast.Name) and t.id == var for t in x.targets)]
-        srcs = sorted((norm(a.value.func) if isinstance(a.value, ast.Call) else norm(a.value)) for a in assigns)
-        r5.check(srcs == ["self._to_pretty_xml", "self._to_ugly_xml"], "print_xform_to_file:sources",
-                 "the returned text comes only from the two serialisers", pf.loc(), why_fail=f"sources={srcs}")
-        writes = [c for c in walk_own(pf.node) if isinstance(c, ast.Call) and call_name(c) == "write"]
-        r5.check(len(writes) == 1 and norm(writes[0].args[0]) == var, "print_xform_to_file:written", "the text written for the validator is the returned text", pf.loc())
+    # evaluated: whatever mode and validators are asked for, the text returned IS the serialiser's result for that mode
+    # (nothing is built from it, nothing is put in front of it), and the same text is what is written to the file the
+    # validators read
+    from .. import printxform
+    for pretty_, validate_, enketo_ in itertools.product((True, False), (True, False), (True, False)):
+        res_ = printxform.run(ctx, "C01.R5", pretty_print=pretty_, validate=validate_, enketo=enketo_, translations={"English (en)": {}}, bad=[])
+        want_ = printxform.PRETTY if pretty_ else printxform.UGLY
+        desc_ = f"pretty_print={pretty_} validate={validate_} enketo={enketo_}"
+        r5.check(res_.outcome == "return" and res_.value is want_, f"print_xform_to_file[{desc_}]:returned", "the returned text is exactly the serialiser's result for the requested mode", pf.loc(),
+                 why_fail=f"{res_.outcome}: {res_.value!r}")
+        r5.check(res_.written == [want_], f"print_xform_to_file[{desc_}]:written", "the text written for the validators is that same text, written once", pf.loc(), why_fail=repr(res_.written))
     tx = ctx.func("pyxform.survey:Survey.to_xml", "C01.R5")
     rets = [x for x in walk_own(tx.node) if isinstance(x, ast.Return)]
     okr = len(rets) == 1 and isinstance(rets[0].value, ast.Name)
